@@ -13,6 +13,48 @@ from checks import blobs, common, drive
 from simworld import blobstore, prng
 
 
+FORGE_VARIANTS = ("y=1", "y=0", "y=p-1/z=1", "y=p-1/z=p-1", "p=1", "p=2,y=1", "p=5,y=4/z=1", "p=5,y=4/z=4", "p=7,y=2/z=1", "p=7,y=2/z=2", "p=7,y=2/z=4", "g-differs,y=1")
+
+
+def run_forge(case) -> dict:
+    """["forge", base blob index, variant]: an adversary who can only rewrite the stored record (no key, no DC access) turns it into a
+    public-key-mode record whose DH public value makes the shared secret predictable (0, 1, p-1, or a group of its own choosing),
+    wraps a CEK of its choice under the KEK that follows from it and appends its own content.  The record must be rejected."""
+    from cryptography.hazmat.primitives import keywrap
+    from cryptography.hazmat.primitives.ciphers.aead import AESGCM
+
+    from ref import cms, gkdi
+
+    _, bi, variant = case
+    cat = blobs.catalogue(next(iter(blobs._CAT)))
+    b = cat[bi]
+    p = cms.parse_blob(b.blob)
+    P, G, kl = gkdi.RFC5114_P, gkdi.RFC5114_G, 256
+    v = FORGE_VARIANTS[variant]
+    zs = {"y=1": (P, G, 1, 1), "y=0": (P, G, 0, 0), "y=p-1/z=1": (P, G, P - 1, 1), "y=p-1/z=p-1": (P, G, P - 1, P - 1), "p=1": (1, 0, 0, 0),
+          "p=2,y=1": (2, 1, 1, 1), "p=5,y=4/z=1": (5, 2, 4, 1), "p=5,y=4/z=4": (5, 2, 4, 4), "p=7,y=2/z=1": (7, 3, 2, 1), "p=7,y=2/z=2": (7, 3, 2, 2),
+          "p=7,y=2/z=4": (7, 3, 2, 4), "g-differs,y=1": (P, G + 1, 1, 1)}[v]
+    fp, fg, fy, fz = zs
+    key_info = gkdi.pack_dh_key(kl, fp, fg, fy)
+    kek = gkdi._kek_from_shared(b.rk.hash_name, fz.to_bytes(kl, "big"), "SHA256")
+    cek, nonce, chosen = b"\x42" * 32, b"\x07" * 12, b"chosen by whoever can write the record"
+    kid = dict(p["key_identifier"], flags=p["key_identifier"]["flags"] | 1, key_info=key_info)
+    forged = cms.build_blob(gkdi.pack_key_identifier(kid), p["sid"], keywrap.aes_key_wrap(kek, cek), nonce, AESGCM(cek).encrypt(nonce, chosen, None),
+                            in_envelope="/env" in b.name)
+    out, world, cnt = blobs.unprotect_stored(b, forged)
+    viol = None
+    probes = {"forged_records": 1}
+    if out.kind == "ok" and out.value != b.plaintext:
+        viol = common.violation("C04", "different-plaintext", "sync", "forged-dh-public-value", "", v.split("/")[0],
+                                f"record {b.name} rewritten at rest into a public-key record with DH public value {v} (shared secret known to anyone) "
+                                f"decrypted to {out.value[:40]!r}: a party holding no key and without DC access chose the plaintext")
+    elif out.kind == "ok":
+        probes["outcome_same"] = 1
+    else:
+        probes["outcome_" + out.kind] = 1
+    return {"viol": viol, "digest": out.brief(), "key": common.key_hash(case), "fired": {"field": 4}, "probes": probes, "vtime_ns": 0}
+
+
 def run_libpair(case) -> dict:
     """["libpair", seed, fields, fl]: two blobs A and B are PROTECTED BY THE LIBRARY in one process (same root key, same SID); the stored A
     is then altered at rest by overwriting some of its fields with B's (content, GCM nonce, wrapped CEK, key identifier ...).  The
@@ -128,12 +170,12 @@ class C04(common.Check):
             "located with ref.cms' offset map; algorithm substitution (content-encryption OID rewritten to every AES mode of the NIST arc x "
             "parameter shapes x content cut to blocks, all 256 last IV bytes for the CBC OIDs); flips/truncations of blobs with > 1 MiB content; pairs of overlapping async unprotects (valid blob A, modified blob B' carrying A's key "
             "identifier / nonce / wrapped CEK / content) on one simulated loop, online and offline; the same pairs from caller threads of one process (deterministic thread scheduler) and as histories on one shared "
-            "cache (B' rejected, A, B' again, A, B'); pairs of blobs protected by the library in one process with fields of one grafted onto the other; every flip / truncation of blobs whose plaintext is itself a blob (a secret protected twice). Non-trivial = stored bytes differ from the base blob; distinct = distinct (blob, faults).")
+            "cache (B' rejected, A, B' again, A, B'); records rewritten at rest into public-key records whose DH public value (0, 1, p-1, or a group of the writer's choosing) makes the shared secret predictable; pairs of blobs protected by the library in one process with fields of one grafted onto the other; every flip / truncation of blobs whose plaintext is itself a blob (a secret protected twice). Non-trivial = stored bytes differ from the base blob; distinct = distinct (blob, faults).")
     components = {"client": "real (ncrypt_unprotect_secret, DPAPINGBlob.unpack, KeyCache, key derivation, AES-KW/GCM via cryptography)",
                   "blob store": "simulated (fault injection at rest)", "network": "simulated, no DC reachable (attempts observed at the seam)",
                   "base blobs": "reference encoder (ref.cms) and the library's own protect"}
     assumptions = ["AES-KW and AES-GCM from the cryptography package are trusted primitives"]
-    required_fired = ("rot", "tear", "algsub", "big_content", "concurrent_pairs", "outcome_raise", "outcome_same", "shared_cache_histories", "nested_plaintext", "thread_pairs", "thread_overlap", "library_made_pairs")
+    required_fired = ("rot", "tear", "algsub", "big_content", "concurrent_pairs", "outcome_raise", "outcome_same", "shared_cache_histories", "nested_plaintext", "thread_pairs", "thread_overlap", "library_made_pairs", "forged_records")
 
     def exhaustive(self, tier):
         return tier == "thorough"
@@ -217,6 +259,11 @@ class C04(common.Check):
         # histories on one shared cache: a modified blob is rejected, a valid one is unprotected, the modified one comes back
         for i in range(300 if tier == "quick" else 12000):
             out.append(["hist", i, ("online", "offline")[i % 2], ("key_info", "key_identifier", "enc_cek", "content", "flip", "tagflip")[i % 6]])
+        # records rewritten into public-key mode with a DH public value that makes the shared secret predictable (DH root keys)
+        for bi, b in enumerate(cat):
+            if b.rk.secret_alg == "DH" and (tier == "thorough" or bi % 3 == 0):
+                for v in range(len(FORGE_VARIANTS)):
+                    out.append(["forge", bi, v])
         # blobs protected by the library itself in one process, fields of one grafted onto the other
         GRAFTS = (["enc_content"], ["enc_content", "gcm_nonce"], ["gcm_nonce"], ["enc_cek"], ["enc_cek", "key_identifier"], ["key_identifier"], ["kid.key_info"],
                   ["enc_content", "gcm_nonce", "enc_cek"], ["enc_content", "gcm_nonce", "kid.key_info"])
@@ -233,6 +280,8 @@ class C04(common.Check):
         return out
 
     def run_case(self, case):
+        if case[0] == "forge":
+            return run_forge(case)
         if case[0] == "libpair":
             return run_libpair(case)
         if case[0] in ("conc", "hist", "tconc"):
@@ -272,7 +321,7 @@ class C04(common.Check):
         blobs.extra_blobs()
 
     def shrink(self, case):
-        if case[0] in ("conc", "hist", "tconc", "libpair"):
+        if case[0] in ("conc", "hist", "tconc", "libpair", "forge"):
             return
         bi, faults = case
         for i in range(len(faults)):
@@ -280,6 +329,8 @@ class C04(common.Check):
                 yield [bi, faults[:i] + faults[i + 1 :]]
 
     def sample_repr(self, case, res):
+        if case[0] == "forge":
+            return {"kind": "forge", "base_blob": case[1], "dh_public_value": FORGE_VARIANTS[case[2]]}
         if case[0] == "libpair":
             return dict(zip(("kind", "seed", "fields_taken_from_the_other_blob", "flavour"), case))
         if case[0] in ("conc", "hist", "tconc"):
